@@ -110,6 +110,9 @@ def run_case(case):
                 rest_ok = bool(bindings)
                 if m.name == "Both":
                     msg.name = "things/" + rng.choice(PLAIN)
+                if m.name == "Disabled":        # empty annotation: the HTTP path variables are set and must NOT produce a header
+                    msg.name = "things/" + rng.choice(PLAIN)
+                    msg.table_name = rng.choice(PLAIN)
             elif bindings:
                 kind = "implicit"
                 verb, tmpl, body = bindings[0]
